@@ -205,24 +205,44 @@ def choose_expr(rng, db, elem, den, default_canon, per_elem=True):
     return dict(spelling=spelling, own=own, as_f=as_f, gfw=gfw)
 
 
+OPT_SPELL = {"units": ["units", "-units", "unit", "-unit", "-u", "Units"], "temp": ["temp", "-temp", "temperature", "-t", "Temp"],
+             "density": ["density", "-density", "dens", "-dens", "-d"], "water": ["water", "-water", "-w"], "pH": ["pH", "ph", "-pH", "PH"],
+             "pe": ["pe", "-pe"], "pressure": ["pressure", "-pressure", "press", "-pr"]}
+CALLBACK_TAIL = ["SELECTED_OUTPUT 1", " -reset false", "USER_PUNCH 1", None, " 20 PUNCH 1", "END"]
+
+
+def _tail(calc):
+    t = list(CALLBACK_TAIL)
+    t[3] = f' 10 x = CALLBACK({2 if calc else 1}, 0, "tot")'
+    return t
+
+
+def _comp_desc(db, e, num, ex):
+    return dict(name=e, conc=num, own=ex["own"], alk=e.lower().startswith("alk"), gfw=ex["gfw"] or 0.0, as_f=ex["as_f"] or "",
+                spelling=ex["spelling"], elts=parse_formula(ex["as_f"]) if ex["as_f"] else [], master=db.master_gfw(e))
+
+
 def conv_case(rng, db):
-    """one initial solution exercising convert_units: returns (input text, description for the model)"""
+    """one SOLUTION block exercising convert_units: option lines (several spellings, any position in the block) and constituent
+    lines. returns (input text, description); description["sols"][0]["model_ops"] is the raw text handed to the model."""
     den = rng.choice(["kgw", "kgw", "kgw", "l", "l", "kgs", "kgs"])
     default = rng.choice([c for c in SPELL if canon_parts(c)[2] == den])
     dspell = rng.choice(SPELL[default])
     ph = round(rng.uniform(5.0, 9.0), 3)
     water = rng.choice([1.0, 1.0, 0.5, 2.0, 1e-3, 1e3, 0.123, 37.5])
+    temp = rng.choice([25.0, 25.0, 10.0, 40.0])
     density = round(rng.uniform(0.98, 1.15), 4) if (den == "l" or rng.random() < 0.2) else None
     calc = density is not None and den != "kgw" and rng.random() < 0.35
     elems = pick_elems(rng)
     amounts = gen_amounts(rng, elems)
-    lines = ["SOLUTION 1", f" pH {ph!r}", f" units {dspell}"]
+    body = [f" {rng.choice(OPT_SPELL['pH'])} {ph!r}", f" {rng.choice(OPT_SPELL['units'])} {dspell}"]
+    if temp != 25.0 or rng.random() < 0.3:
+        body.append(f" {rng.choice(OPT_SPELL['temp'])} {temp!r}")
     if density is not None:
-        lines.append(f" density {density!r}" + (" calculate" if calc else ""))
+        body.append(f" {rng.choice(OPT_SPELL['density'])} {density!r}" + (rng.choice([" calculate", " c", " Calc"]) if calc else ""))
     if water != 1.0 or rng.random() < 0.2:
-        lines.append(f" -water {water!r}")
+        body.append(f" {rng.choice(OPT_SPELL['water'])} {water!r}")
     comps = []
-    raw = []
     order = list(elems)
     rng.shuffle(order)
     for e in order:
@@ -242,59 +262,154 @@ def conv_case(rng, db):
             cl = "  " + cl.replace(" ", rng.choice(["  ", "\t", " \t "]), 2)
         if e == "C(4)" and rng.random() < 0.3:
             cl = cl.replace(" C(4) ", " C(+4) ", 1)
-        lines.append(cl)
-        raw.append(cl)
-        comps.append(dict(name=e, conc=num, own=ex["own"], alk=e.lower().startswith("alk"), gfw=ex["gfw"] or 0.0,
-                          as_f=ex["as_f"] or "", elts=parse_formula(ex["as_f"]) if ex["as_f"] else [],
-                          master=db.master_gfw(e)))
-    lines += ["SELECTED_OUTPUT 1", " -reset false", "USER_PUNCH 1", f' 10 x = CALLBACK({2 if calc else 1}, 0, "tot")',
-              " 20 PUNCH 1", "END"]
-    desc = dict(default=default, dspell=dspell, ph=ph, water=water, density=density if density is not None else 1.0,
-                calc=calc, comps=comps, den=den, lines=raw, cells=None)
+        body.append(cl)
+        comps.append(_comp_desc(db, e, num, ex))
+    if rng.random() < 0.6:
+        rng.shuffle(body)           # options and constituents in any order: the units in force at the END of the block count
+    lines = ["SOLUTION 1"] + body + _tail(calc)
+    sol = dict(n=1, ph=ph, water=water, temp=temp, pe=4.0, density=density if density is not None else 1.0, default=default, den=den,
+               comps=comps, model_ops=["text2 block"] + [f"tline {hexs(l)}" for l in body])
+    desc = dict(kind="block", calc=calc, default=default, sols=[sol])
     return "\n".join(lines) + "\n", desc
 
 
-def spread_case(rng, db):
-    """one SOLUTION_SPREAD row exercising convert_units: headings, an optional units row with `as` / gfw in the unit cells"""
-    den = rng.choice(["kgw", "kgw", "l", "kgs"])
-    default = rng.choice([c for c in SPELL if canon_parts(c)[2] == den])
-    dspell = rng.choice(SPELL[default])
-    ph = round(rng.uniform(5.0, 9.0), 3)
-    water = rng.choice([1.0, 1.0, 0.5, 2.0, 0.123])
-    density = round(rng.uniform(0.98, 1.15), 4) if den == "l" else None
+def hexs(s):
+    return s.encode().hex() if s else "-"
+
+
+def spread_case(rng, db, rows=None):
+    """a SOLUTION_SPREAD with block-level options, per-row special columns (units, pH, temp, water, density, pe, pressure,
+    description) whose values differ from the block level and between rows, and an optional units row giving units (`as`, gfw) for
+    SOME element columns only. The units in force for a row: its `units` cell > block-level -units > built-in mmol/kgw."""
+    block_units = rng.random() < 0.7
+    den = rng.choice(["kgw", "kgw", "l", "kgs"]) if block_units else "kgw"
+    fam = [c for c in SPELL if canon_parts(c)[2] == den]
+    bdefault = rng.choice(fam) if block_units else "mMol/kgw"
+    bl = []
+    if block_units:
+        bl.append(f" -units {rng.choice(SPELL[bdefault])}")
+    b = dict(ph=7.0, temp=25.0, water=1.0, pe=4.0, density=1.0, pressure=1.0)
+    if rng.random() < 0.4:
+        b["temp"] = rng.choice([10.0, 18.5, 40.0])
+        bl.append(f" -temp {b['temp']!r}")
+    if rng.random() < 0.3:
+        b["ph"] = round(rng.uniform(5.5, 8.5), 2)
+        bl.append(f" -pH {b['ph']!r}")
+    if rng.random() < 0.3:
+        b["water"] = rng.choice([0.5, 2.0, 0.123])
+        bl.append(f" -water {b['water']!r}")
+    if den == "l" or rng.random() < 0.15:
+        b["density"] = round(rng.uniform(0.98, 1.12), 4)
+        bl.append(f" -density {b['density']!r}")
+    rng.shuffle(bl)
+    nrows = rows or rng.choice([1, 2, 2, 3])
     elems = pick_elems(rng, 1, 5)
-    amounts = gen_amounts(rng, elems)
     with_units_row = rng.random() < 0.7
-    heads, data, ucells, comps, cells = ["Number", "pH"], ["1", repr(ph)], ["", ""], [], []
+    # per-column own units (the same for all rows) for SOME columns
+    colex = {}
     for e in elems:
-        ex = choose_expr(rng, db, e, den, default, per_elem=with_units_row)
-        eff = ex["own"] or default
+        ex = choose_expr(rng, db, e, den, bdefault, per_elem=with_units_row)
         if not with_units_row:
+            ex = dict(spelling=None, own=None, as_f=None, gfw=None)
+        elif rng.random() < 0.4:
+            ex = dict(spelling=None, own=None, as_f=None, gfw=None)      # no unit cell: inherits the row's units
+        if ex["own"] is None and (ex["as_f"] or ex["gfw"] is not None) and not with_units_row:
             ex["as_f"], ex["gfw"] = None, None
-        num = float(f"{unit_number(db, e, amounts[e], eff, ex['as_f'], ex['gfw']):.6g}")
-        u = (ex["spelling"] or "") + (f" as {ex['as_f']}" if ex["as_f"] else "") + (f" gfw {ex['gfw']!r}" if ex["gfw"] is not None else "")
-        u = u.strip()
-        if u and not ex["spelling"] and rng.random() < 0.0:
-            u = ""
-        heads.append(e)
-        data.append(repr(num))
-        ucells.append(u)
-        cells.append((e, repr(num), u if with_units_row else ""))
-        comps.append(dict(name=e, conc=num, own=ex["own"], alk=e.lower().startswith("alk"), gfw=ex["gfw"] or 0.0,
-                          as_f=ex["as_f"] or "", elts=parse_formula(ex["as_f"]) if ex["as_f"] else [], master=db.master_gfw(e)))
-    L = ["SOLUTION_SPREAD", f" -units {dspell}"]
-    if density is not None:
-        L.append(f" -density {density!r}")
-    if water != 1.0:
-        L.append(f" -water {water!r}")
-    L.append(" " + "\t".join(heads))
+        colex[e] = ex
+    special = [c for c in ["units", "pH", "temp", "water", "pe", "pressure", "description"] if rng.random() < {"units": 0.6, "pH": 0.7, "temp": 0.4,
+               "water": 0.35, "pe": 0.2, "pressure": 0.15, "description": 0.2}[c]]
+    if den == "l" and rng.random() < 0.5:
+        special.append("density")
+    head_spell = {"units": ["units", "Units", "unit"], "pH": ["pH", "ph"], "temp": ["temp", "Temp", "temperature"], "water": ["water", "Water"],
+                  "pe": ["pe"], "pressure": ["pressure", "press"], "description": ["description", "desc"], "density": ["density", "dens"]}
+    cols = ["Number"] + special + list(elems)
+    rng.shuffle(cols)
+    heads = [rng.choice(head_spell[c]) if c in head_spell else c for c in cols]
+    ucells = []
+    for c in cols:
+        if c in colex and with_units_row:
+            ex = colex[c]
+            u = ((ex["spelling"] or "") + (f" as {ex['as_f']}" if ex["as_f"] else "") + (f" gfw {ex['gfw']!r}" if ex["gfw"] is not None else "")).strip()
+            ucells.append(u)
+        else:
+            ucells.append("")
+    numbers = sorted(rng.sample(range(1, 60), nrows))
+    datarows, sols = [], []
+    for n in numbers:
+        v = dict(b)
+        row_default = bdefault
+        cellvals = {}
+        for c in special:
+            if c == "units":
+                if rng.random() < 0.75:
+                    ru = rng.choice([u for u in fam if u != bdefault] or fam)
+                    cellvals[c] = rng.choice(SPELL[ru])
+                    row_default = ru
+                else:
+                    cellvals[c] = ""                     # empty cell: the block-level units stay in force
+            elif c == "pH":
+                v["ph"] = round(rng.uniform(5.0, 9.0), 3)
+                cellvals[c] = repr(v["ph"])
+            elif c == "temp":
+                v["temp"] = rng.choice([5.0, 12.5, 25.0, 33.0, 60.0])
+                cellvals[c] = repr(v["temp"])
+            elif c == "water":
+                v["water"] = rng.choice([0.25, 1.0, 3.0, 0.077])
+                cellvals[c] = repr(v["water"])
+            elif c == "pe":
+                v["pe"] = round(rng.uniform(0, 10), 2)
+                cellvals[c] = repr(v["pe"])
+            elif c == "pressure":
+                v["pressure"] = rng.choice([1.0, 2.0, 5.0])
+                cellvals[c] = repr(v["pressure"])
+            elif c == "density":
+                v["density"] = round(rng.uniform(0.98, 1.12), 4)
+                cellvals[c] = repr(v["density"])
+            elif c == "description":
+                cellvals[c] = rng.choice(["well_7", "spring", "sample-3"])
+        amounts = gen_amounts(rng, elems)
+        comps = []
+        for e in elems:
+            ex = colex[e]
+            eff = ex["own"] or row_default
+            num = float(f"{unit_number(db, e, amounts[e], eff, ex['as_f'], ex['gfw']):.6g}")
+            if rng.random() < 0.08:
+                cellvals[e] = ""                         # element not analysed in this row
+            else:
+                cellvals[e] = repr(num)
+                comps.append(_comp_desc(db, e, num, ex))
+        cellvals["Number"] = str(n)
+        datarows.append([cellvals[c] for c in cols])
+        ops = ["text2 row"] + [f"bopt {hexs(l)}" for l in bl]
+        for c, h, u in zip(cols, heads, ucells):
+            if c == "Number" or cellvals[c] == "":
+                continue                                 # spread_row_to_solution skips the number column and empty data cells
+            ops.append(f"cell {hexs(h)} {hexs(cellvals[c])} {hexs(u)}")
+        sols.append(dict(n=n, ph=v["ph"], water=v["water"], temp=v["temp"], pe=v["pe"], density=v["density"], pressure=v["pressure"],
+                         default=row_default, den=den, comps=comps, model_ops=ops))
+    L = ["SOLUTION_SPREAD"] + bl + [" " + "\t".join(heads)]
     if with_units_row:
         L.append(" " + "\t".join(ucells))
-    L.append(" " + "\t".join(data))
-    L += ["SELECTED_OUTPUT 1", " -reset false", "USER_PUNCH 1", ' 10 x = CALLBACK(1, 0, "tot")', " 20 PUNCH 1", "END"]
-    desc = dict(default=default, dspell=dspell, ph=ph, water=water, density=density if density is not None else 1.0,
-                calc=False, comps=comps, den=den, lines=None, cells=cells)
-    return "\n".join(L) + "\n", desc
+    for dr in datarows:
+        L.append(" " + "\t".join(dr))
+    text_body = "\n".join(L) + "\n"
+    desc = dict(kind="spread", calc=False, default=bdefault, sols=sols, body=text_body)
+    return text_body + "\n".join(_tail(False)) + "\n", desc
+
+
+def reference_blocks(desc, base_units=False):
+    """the SOLUTION blocks a description denotes (the reference of the property): one block per solution, every option written out,
+    every constituent with its own unit / `as` / gfw; units in force = row cell > block-level > built-in (decided in the generator)"""
+    out = []
+    for s in desc["sols"]:
+        L = [f"SOLUTION {s['n']}", f" temp {s['temp']!r}", f" pH {s['ph']!r}", f" pe {s['pe']!r}",
+             f" units {s['default']}", f" density {s['density']!r}" + (" calculate" if desc["calc"] else ""), f" -water {s['water']!r}"]
+        if s.get("pressure", 1.0) != 1.0:
+            L.append(f" -pressure {s['pressure']!r}")
+        for c in s["comps"]:
+            L.append(comp_line(c["name"], c["conc"], c["own"], c["as_f"] or None, c["gfw"] if c["gfw"] > 0 else None))
+        out.append("\n".join(L) + "\n")
+    return "".join(out)
 
 
 # ------------------------------------------------------------------------------------------------ metamorphic pairs
